@@ -63,9 +63,9 @@ def wire(d, tag):
 # every fault: (lines to write, offset of the faulty line inside them, classes any ONE of which may report it,
 #               minimum number of diagnostics it produces)
 PAGE_FAULTS = ["unknown_directive", "unknown_role", "bad_option", "missing_include", "missing_literalinclude",
-               "missing_image", "undefined_ref", "undefined_substitution", "undefined_constant", "conflict"]
+               "missing_image", "undefined_ref", "undefined_substitution", "undefined_constant", "conflict", "arg_role", "todo"]
 POSTPROCESS_FAULTS = ["missing_include", "undefined_ref", "undefined_substitution"]
-YAML_FAULTS = ["unknown_role", "undefined_ref", "missing_image", "unknown_directive", "undefined_constant"]
+YAML_FAULTS = ["unknown_role", "undefined_ref", "missing_image", "unknown_directive", "undefined_constant", "arg_role", "todo"]
 
 
 def block_lines(b):
@@ -76,6 +76,13 @@ def block_lines(b):
         return [f".. bogusdirective{k}::", ""], 0, ["DocUtilsParseError"]
     if t == "unknown_role":
         return [f"Some text :bogusrole{k}:`x` more text.", ""], 0, ["DocUtilsParseError"]
+    if t == "arg_role":
+        # the problem sits in the ARGUMENT of a directive (generic directive / version directive)
+        if k % 2:
+            return [f".. versionchanged:: 4.2 Changed :bogusarg{k}:`x` here", "", "   Body.", ""], 0, ["DocUtilsParseError"]
+        return [f".. note:: Title with :bogusarg{k}:`x`", "", "   Body.", ""], 0, ["DocUtilsParseError"]
+    if t == "todo":
+        return [f".. todo:: write section {k}", ""], 0, ["TodoInfo"]
     if t == "bad_option":
         return [".. list-table::", f"   :header-rows: notanumber{k}", "", "   * - a", "     - b", ""], 0, ["DocUtilsParseError"]
     if t == "missing_include":
